@@ -84,13 +84,15 @@ def run_real_once(case, dedicated=True):
             raise ValueError('boom-extractor')
         return (kind, r)
 
-    def data_extractor(recording):
-        return {'of': recording.id}
+    data = dict((S.rid(int(k)), v) for k, v in (case.get('data') or {}).items())
 
-    def comparator(rec, play, of=None):
+    def data_extractor(recording):
+        return S.data_for(data, recording.id)
+
+    def comparator(rec, play, **given):
         r = rec[1]
         b = beh.get(r, 'equal')
-        if of != r or play[1] != r:
+        if given != S.data_for(data, r) or play[1] != r:
             return ComparatorResult(EqualityStatus.Failed, 'mixed-up-inputs')
         if b == 'comparator_raises':
             raise ValueError('boom-comparator')
